@@ -102,12 +102,23 @@ def day_loc(od, z):
 
 
 def flags_of(days, z):
+    """classification of a span by what the clock does in it (days: group_days of the hourly grid the span OUGHT to have:
+    local 00:00 of the first supplied day .. wall-clock 23:00 of the last one — from the tz database, not from the frame
+    the implementation built, so that a frame with a truncated or surplus day is not mistaken for an unusual zone)"""
     sub = any(mm for _, rows in days for _, _, mm in rows)
     counts = [len(rows) for _, rows in days]
     multi = any(c not in (23, 24, 25) for c in counts)
     midnight = any(day_loc(od, z) is not None for od, rows in days if len(rows) in (23, 25))
     change = any(c != 24 for c in counts) or sub
-    return {"sub_hour_shift": sub, "multi_hour_shift": multi, "midnight_change": midnight, "clock_change_in_span": change}
+    short23 = any(len(rows) == 23 and 23 not in {h for _, h, _ in rows} for _, rows in days)
+    long23_last = bool(days) and len(days[-1][1]) == 25 and [h for _, h, _ in days[-1][1]].count(23) == 2
+    return {"sub_hour_shift": sub, "multi_hour_shift": multi, "midnight_change": midnight, "clock_change_in_span": change,
+            "skips_hour_23": short23, "ends_on_repeated_hour_23": long23_last}
+
+
+def ideal_grid(first, last, z):
+    """the hourly grid a data object built from readings first..last (UTC minutes) has to carry"""
+    return list(range(cz.replace_hour(first, z, 0), cz.replace_hour(last, z, 23) + 1, 60))
 
 
 def coq_cdays(days, z, obs_nonnull):
@@ -523,17 +534,31 @@ def gen_hp_cases(rng, zones_trans, per_zone, thorough):
             else:
                 base = T
             d0 = base.astimezone(cz.zone(z)).date().toordinal()
-            before = rng.choice([0, 1, 1, 2, 3, 5])
-            after = rng.choice([0, 1, 1, 2, 3, 5])
+            # generic: the change somewhere inside; last / first: the change day is the LAST / FIRST supplied day and the
+            # readings stop / start at any hour of it (these ends are where wall-clock vs elapsed-time mistakes show)
+            mode = rng.choice(["generic", "generic", "last", "last", "first"]) if T is not None else "generic"
+            before = 0 if mode == "first" else rng.choice([0, 1, 1, 2, 3, 5])
+            after = 0 if mode == "last" else rng.choice([0, 1, 1, 2, 3, 5])
             s = None
             while s is None:
                 s = cz.local_midnight_utc(d0 - before, z, 0)
                 before += 1
-            s = cz.to_minutes(s) + 60 * rng.choice([0, 0, 0, 1, 5, 13, 23])
+            s = cz.to_minutes(s)
             ndays = before - 1 + after + 1
-            n = max(2, ndays * 24 - rng.choice([0, 0, 0, 1, 7, 20]))
+            if mode == "last" and cz.day_start(d0, z) is not None and cz.day_start(d0 + 1, z) is not None:
+                hours = (cz.day_start(d0 + 1, z) - cz.day_start(d0, z)) // 60
+                last = cz.day_start(d0, z) + 60 * rng.choice([hours - 1, hours - 1, hours - 2, rng.randrange(0, max(1, hours))])
+                s += 60 * rng.choice([0, 0, 0, 1, 5, 13, 23])
+                n = max(2, (last - s) // 60 + 1)
+            elif mode == "first" and cz.day_start(d0, z) is not None and cz.day_start(d0 + 1, z) is not None:
+                hours = (cz.day_start(d0 + 1, z) - cz.day_start(d0, z)) // 60
+                s = cz.day_start(d0, z) + 60 * rng.choice([0, 0, 1, 2, 3, rng.randrange(0, max(1, hours))])
+                n = max(2, (cz.day_start(d0 + 1, z) - s) // 60 + after * 24 - rng.choice([0, 0, 0, 1, 7, 20]))
+            else:
+                s += 60 * rng.choice([0, 0, 0, 1, 5, 13, 23])
+                n = max(2, ndays * 24 - rng.choice([0, 0, 0, 1, 7, 20]))
             for with_obs in ((True, False) if rng.random() < 0.45 else (True,)):
-                c = {"zone": z, "start": s, "n": n, "with_obs": with_obs, "T": None if T is None else str(T),
+                c = {"zone": z, "start": s, "n": n, "with_obs": with_obs, "T": None if T is None else str(T), "mode": mode,
                      "gaps": [], "temp_nan": [], "obs_nan": []}
                 u = rng.random()
                 if u < 0.3 and n > 30:
@@ -562,6 +587,12 @@ WITNESS_HP = [   # the refutation witnesses of Properties/C06.v on real zones, a
     {"zone": "Australia/Sydney", "start": None, "date": "2021-10-01", "ndays": 5, "with_obs": True},
     {"zone": "Antarctica/Casey", "start": None, "date": "2010-03-02", "ndays": 5, "with_obs": True},     # a date visited twice
     {"zone": "Pacific/Apia", "start": None, "date": "2011-12-28", "ndays": 5, "with_obs": True},         # a date skipped
+    {"zone": "America/Santiago", "start": None, "date": "2022-03-31", "ndays": 3, "n": 73, "with_obs": True},   # F7: ends on a day repeating 23
+    {"zone": "Asia/Beirut", "start": None, "date": "2022-10-27", "ndays": 3, "n": 73, "with_obs": False},       # F7
+    {"zone": "US/Pacific", "start": None, "date": "2023-03-10", "ndays": 3, "n": 71, "with_obs": True},     # last day = spring-forward day
+    {"zone": "US/Pacific", "start": None, "date": "2023-11-03", "ndays": 3, "n": 73, "with_obs": True},     # last day = fall-back day
+    {"zone": "Europe/Berlin", "start": None, "date": "2021-03-28", "ndays": 3, "with_obs": True},           # first day = spring-forward day
+    {"zone": "Europe/Berlin", "start": None, "date": "2021-10-31", "ndays": 3, "with_obs": False},          # first day = fall-back day
 ]
 
 
@@ -570,7 +601,7 @@ def witness_cases():
     for w in WITNESS_HP:
         od = pd.Timestamp(w["date"]).toordinal()
         s = cz.to_minutes(cz.local_midnight_utc(od, w["zone"], 0))
-        out.append({"zone": w["zone"], "start": s, "n": w["ndays"] * 24, "with_obs": w["with_obs"], "T": "witness",
+        out.append({"zone": w["zone"], "start": s, "n": w.get("n", w["ndays"] * 24), "with_obs": w["with_obs"], "T": "witness",
                     "gaps": [], "temp_nan": [], "obs_nan": []})
     return out
 
@@ -760,12 +791,27 @@ def process_hp(run, st, cases, results):
             continue
         check_fields(run, (z, case["start"]), res["idx"], z, res["pd_fields"])
         days = group_days(res["idx"], z)
-        flags = flags_of(days, z)
+        grid = ideal_grid(res["input_first"], res["input_last"], z)
+        flags = flags_of(group_days(grid, z), z)
+        # every supplied reading (on the frame's hourly grid) must be a row of the data object's frame
+        supplied = [case["start"] + 60 * k for k in range(case["n"]) if k not in set(case.get("gaps") or [])]
+        have = set(res["idx"])
+        lost = [m for m in supplied if res["idx"] and (m - res["idx"][0]) % 60 == 0 and m not in have]
+        if lost:
+            sig = {"call": "HourlyReportingData", "broken": "supplied reading missing from the frame"}
+            sig.update(flags)
+            run.violation(sig, "C06 HourlyReportingData [%s]: %d supplied hourly readings are not rows of the data object's frame "
+                               "(no prediction can come back for them)" % (z, len(lost)),
+                          case={"stream": "hp", "case": case}, observation={"lost_utc_minutes": lost[:10], "frame_first": res["idx"][0],
+                                                                             "frame_last": res["idx"][-1]},
+                          expected="the frame runs from local 00:00 of the first supplied day to wall-clock 23:00 of the last one",
+                          generator="c06.gen_hp_cases")
         cls = "+".join(k for k in ("sub_hour_shift", "multi_hour_shift", "midnight_change") if flags[k]) or (
             "whole-hour-dst" if flags["clock_change_in_span"] else "no-change")
         run.count(key, nontrivial=flags["clock_change_in_span"])
         run.dist("hourly_zone_class", cls)
         run.dist("hourly_observed", "present" if case["with_obs"] else "absent")
+        run.dist("hourly_span_mode", case.get("mode", "witness"))
         p = res["predict"]
         run.dist("hourly_outcome", ("%s in %s" % (p["raised"], p["where"])) if "raised" in p else "ok")
         for sig, msg in oracle_hp(case, res, flags):
